@@ -183,6 +183,7 @@ def run_reader(case, via="parse_blocks"):
     if case.get("tuples"):
         rows_py = [tuple(r) for r in rows_py]
     ids = {id(r): i for i, r in enumerate(rows_py)}
+    snapshot = [list(r) for r in rows_py]     # the caller's grid as handed in (cells by identity)
     fixer = make_fixer(case.get("fixer", "strict"))
     calls = []
     flt = make_filter(case.get("filter"), calls)
@@ -224,6 +225,9 @@ def run_reader(case, via="parse_blocks"):
                                "severity": iss.severity})
                 n_issues += 1
     out = {"events": events, "final": final, "filter_calls": calls}
+    # rows of the caller's grid that the read changed (length or any cell replaced): a read is not to write to its input
+    out["input_altered"] = [i for i, (a, b) in enumerate(zip(snapshot, rows_py))
+                            if len(a) != len(b) or any(x is not y for x, y in zip(a, b))]
     if fixer is not None and not isinstance(fixer, type):
         out["fixer_end"] = [fixer._errors, fixer._warnings]
     return out
